@@ -30,7 +30,7 @@ def run(index, rep):
     rep.guard(typestate, food, uc, rep)
     constructions = collect_constructions(food)
     rep.note_analysed("Food_constructions_in_Food", len(constructions))
-    rep.guard(labels, constructions, rep)
+    rep.guard(labels, constructions, rep, food)
     rep.guard(mul, food, rep, index)
     rep.guard(lanes, constructions, food, uc, rep)
     rep.guard(purity, food, rep)
@@ -106,13 +106,27 @@ def ts_block(stmts, state, exits):
 def typestate(food, uc, rep):
     rule = "C11.TS"
     verdict = {}
-    for cname, rel, methods in (("UnitConversions", UC, uc), ("Food", FOOD, food)):
-        for name, fn in methods.items():
-            writes = any(
+    # the methods that change the labels of their object: by storing to a label attribute, or by calling (on self) a method that does
+    relabels = set()
+    every = {**uc, **food}
+    changed = True
+    while changed:
+        changed = False
+        for name, fn in every.items():
+            if name in relabels:
+                continue
+            direct = any(
                 _is_self_attr(e, LABELS)
                 for st in ast.walk(fn) if isinstance(st, (ast.Assign, ast.AugAssign))
                 for t in (st.targets if isinstance(st, ast.Assign) else [st.target]) for e in _targets(t))
-            if not writes:
+            via = any(isinstance(c, ast.Call) and isinstance(c.func, ast.Attribute) and isinstance(c.func.value, ast.Name) and c.func.value.id == "self"
+                      and c.func.attr in relabels for c in ast.walk(fn))
+            if direct or via:
+                relabels.add(name)
+                changed = True
+    for cname, rel, methods in (("UnitConversions", UC, uc), ("Food", FOOD, food)):
+        for name, fn in methods.items():
+            if name not in relabels:
                 continue
             exits = []
             end = ts_block(fn.body, "coherent", exits)
@@ -289,23 +303,63 @@ def post_relabel(c):
     return ""
 
 
-def labels(constructions, rep):
+def labels(constructions, rep, food_methods=None):
     rule = "C11.LBL"
     by_method = {}
     for c in constructions:
         by_method.setdefault(c.method, []).append(c)
-    for m in OPS:
-        if m not in by_method:
-            raise AnalysisError(f"Food.{m} no longer constructs a Food (operation table out of date)")
-    for m, cs in by_method.items():
-        if m == "__mul__":
-            continue  # C11.MUL
+    def classes_of(cs):
         defs = local_defs(cs[0].fn)
         got = []
         for c in cs:
             cl = classify_labels(c, defs)
             uniform = len(set(cl)) == 1
             got.append((cl[0] if uniform else "mixed:" + "|".join(cl)) + post_relabel(c))
+        return got
+
+    delegated = {}
+    for m in OPS:
+        if m not in by_method:
+            # the operation may hand over to a helper of the class that builds the result (`return self._combine(other, ...)`): the helper's
+            # constructions are this operation's, with the helper's parameters read as the arguments it is given here
+            fn_m = (food_methods or {}).get(m)
+            rets = [r for r in walk_no_nested(fn_m) if isinstance(r, ast.Return)] if fn_m is not None else []
+            got = []
+            ok_d = bool(rets)
+            for r in rets:
+                c_ = r.value
+                h = c_.func.attr if isinstance(c_, ast.Call) and isinstance(c_.func, ast.Attribute) and isinstance(c_.func.value, ast.Name) \
+                    and c_.func.value.id == "self" else None
+                if h is None or h not in by_method or h in OPS:
+                    ok_d = False
+                    break
+                from .core import bind_args
+                bound = bind_args(c_, by_method[h][0].fn)
+                own_params = {a_.arg for a_ in fn_m.args.args}
+                for cl in classes_of(by_method[h]):
+                    if cl.startswith("param:"):
+                        p_, _, post = cl[6:].partition(">")
+                        a_ = bound.get(p_)
+                        if isinstance(a_, ast.Name) and a_.id == "self":
+                            cl = "self" + (">" + post if post else "")
+                        elif isinstance(a_, ast.Name) and a_.id in own_params:
+                            cl = "param:" + a_.id + (">" + post if post else "")
+                        else:
+                            cl = "?" + cl
+                    got.append(cl)
+            if not ok_d:
+                raise AnalysisError(f"Food.{m} no longer constructs a Food (operation table out of date)")
+            delegated[m] = (fn_m, got)
+    for m, (fn_m, got) in delegated.items():
+        want = sorted(OPS[m])
+        rep.check(sorted(got) == want, rule, f"Food.{m}",
+                  f"result labels {sorted(got)} are not the ones this operation must produce {want} "
+                  "(self = the operand's own labels; >total/>element = relabelled for a sum/one month)",
+                  loc=loc(FOOD, fn_m))
+    for m, cs in by_method.items():
+        if m == "__mul__":
+            continue  # C11.MUL
+        got = classes_of(cs)
         if m not in OPS:
             rep.info(rule, f"Food.{m}: construction(s) with labels {got} not in the operation table (not judged)")
             continue
